@@ -408,16 +408,33 @@ impl QueryRouter {
         }
     }
 
-    /// Determines if a query is a mutation or not.
+    /// Determines if a query is a mutation or not: a data-modifying body or CTE,
+    /// SELECT ... INTO, or a row lock anywhere in a nested query.
     fn is_mutation_query(q: &sqlparser::ast::Query) -> bool {
         use sqlparser::ast::*;
 
-        match q.body.as_ref() {
-            SetExpr::Insert(_) => true,
-            SetExpr::Update(_) => true,
-            SetExpr::Query(q) => Self::is_mutation_query(q),
-            _ => false,
+        fn body_mutates(body: &SetExpr) -> bool {
+            match body {
+                SetExpr::Insert(_) => true,
+                SetExpr::Update(_) => true,
+                SetExpr::Query(q) => !q.locks.is_empty() || QueryRouter::is_mutation_query(q),
+                SetExpr::Select(select) => select.into.is_some(),
+                SetExpr::SetOperation { left, right, .. } => {
+                    body_mutates(left) || body_mutates(right)
+                }
+                _ => false,
+            }
         }
+
+        let cte_mutates = match &q.with {
+            Some(with) => with
+                .cte_tables
+                .iter()
+                .any(|cte| !cte.query.locks.is_empty() || Self::is_mutation_query(&cte.query)),
+            None => false,
+        };
+
+        cte_mutates || body_mutates(q.body.as_ref())
     }
 
     fn database_activity_cache(&self) -> Cache<String, DatabaseActivityState> {
@@ -530,6 +547,8 @@ impl QueryRouter {
                     let has_mutation = Self::is_mutation_query(query);
 
                     if has_locks || has_mutation {
+                        // Later plain reads in the same message must not move it off the primary.
+                        visited_write_statement = true;
                         self.active_role = Some(Role::Primary);
                     } else if !visited_write_statement {
                         // If we already visited a write statement, we should be going to the primary.
